@@ -51,6 +51,7 @@ type c32Rpc struct {
 type c32Behaviour struct {
 	Rpcs  []c32Rpc  `json:"rpcs"`
 	Codes []int     `json:"codes"` // status code of the "status" picker of generation g (index g-1, cyclic)
+	Cause bool      `json:"cause"` // contexts are cancelled with a custom cause (context.WithCancelCause)
 	Steps []c32Step `json:"steps"`
 }
 
@@ -281,7 +282,7 @@ func c32RunBehaviour(b *c32Behaviour) (events []map[string]any, outcome string) 
 	defer verifhook.Set(nil)
 
 	gens := []*pickerGeneration{pw.pickerGen.Load()}
-	cancels := map[string]context.CancelFunc{}
+	cancels := map[string]func(){}
 	ready := map[string]bool{"A": true, "B": false}
 	parked := map[string]bool{}
 	waiting := map[string]bool{} // granted at "wait" / parked: the next arrival at "load" is an unblock
@@ -290,8 +291,12 @@ func c32RunBehaviour(b *c32Behaviour) (events []map[string]any, outcome string) 
 	for _, r := range b.Rpcs {
 		r := r
 		names = append(names, r.Name)
-		ctx, cancel := context.WithCancel(context.Background())
-		cancels[r.Name] = cancel
+		ctx, cancelCause := context.WithCancelCause(context.Background())
+		if b.Cause {
+			cancels[r.Name] = func() { cancelCause(errors.New("verif: custom cancel cause")) }
+		} else {
+			cancels[r.Name] = func() { cancelCause(nil) }
+		}
 		s.spawn(r.Name, func() {
 			s.hook("start")
 			s.log(map[string]any{"ev": "pick_start", "r": r.Name, "ff": r.FF})
